@@ -39,6 +39,7 @@ def grid(res, wd, tier):
 
 
 def subsample(insts, tier):
+    return insts          # (the whole grid costs a few seconds; the quick tier used to take every second point)
     if tier != "quick":
         return insts
     out, seen = [], defaultdict(int)
@@ -99,8 +100,8 @@ def run(tier):
     res = Result(PID, tier, level="exploration")
     wd = workdir(PID)
     res.rule = ("traces = grid points (example, parameters) printed by spec/Rates.tla inside the documented validity ranges and "
-                "run on the real code (quick: every second point of each example plus all points of the labelled regions; thorough: "
-                "all points and the midpoints between neighbouring candidate values of the real parameters); "
+                "run on the real code (quick: all grid points; thorough: "
+                "also the midpoints between neighbouring candidate values of the real parameters); "
                 "evaluations = traces + complexified-variant runs; distinct_nontrivial = points with a solved value and a "
                 "closed form (docstring formula or the example's own theoretical_tau) to compare with")
     insts = subsample(grid(res, wd, tier), tier)
@@ -114,7 +115,7 @@ def run(tier):
     res.samples = [dict(example=t["ex"], params=t["kws"], pepit_tau=t["pepit"] / 1e6,
                         theoretical_tau=(t["theo"] / 1e6) if t["hastheo"] else None, flag=t["flag"], clauses_failed=b)
                    for t, b in verd[:: max(1, len(verd) // 6)][:6]]
-    res.cov["RatesTrace"] = {"Step(%s)" % c: [len(verd), len(verd)] for c in ("value", "rate", "doc-formula", "equivalent-formulation")}
+    res.cov["RatesTrace"] = {"Step(%s)" % c: [len(verd), len(verd)] for c in ("value", "rate", "doc-formula", "own-pair", "equivalent-formulation")}
     res.assumptions = [
         "cvxpy back-end with solver CLARABEL only: MOSEK is NOT installed here, so the 'both back-ends' part of the property is "
         "not exercised; points where CLARABEL does not return 'optimal' are inconclusive",
